@@ -5,5 +5,5 @@ WT="$1"; P="$2"; PROPS="$3"
 git -C "$WT" reset -q --hard 2>/dev/null; git -C "$WT" clean -fdq -e .demo
 git -C "$WT" checkout -q --detach "$(git -C /repo rev-parse HEAD)" || exit 3
 git -C "$WT" apply "$P" 2>/dev/null || git -C "$WT" apply --3way "$P" 2>/dev/null || { echo "APPLY-FAILED $P"; git -C "$WT" checkout -q -- .; exit 3; }
-/verif/bin/finlint -repo "$WT" -verif /verif -property "$PROPS" -no-evidence 2>&1 | grep -E "^(finding|VIOLATION|C[0-9]+:)" 
+${FINLINT:-/verif/bin/finlint} -repo "$WT" -verif /verif -property "$PROPS" -no-evidence 2>&1 | grep -E "^(finding|VIOLATION|C[0-9]+:)" 
 git -C "$WT" reset -q --hard
